@@ -161,6 +161,19 @@ impl Monitor for C17 {
         let columns: Vec<String> = if lone_input { vec!["input".into()] } else if near_input { vec![rng.pick(&["Input", "INPUT", "iNPUT", "input_", "xinput", "inputs", "t.input", " input"]).to_string()] } else { (0..ncols).map(|i| match rng.below(6) { 0 => format!("p{}", i), 1 => format!("col{}", i), 2 => format!("t.c{}", i), 3 => format!("count{}", i), 4 => format!("x{}_y", i), _ => format!("c{}", i) }).collect() };
         let nres = 1 + rng.below(4);
         let results: Vec<Vec<Vec<J>>> = (0..nres).map(|_| { let nrows = rng.below(6); (0..nrows).map(|_| (0..columns.len()).map(|_| if lone_input { json!(["text", *rng.pick(SAFE_TEXT)]) } else { gen_value(rng, safe) }).collect()).collect() }).collect();
+        // consecutive rows that are equal as values but not as printed (0.0 / -0.0), or simply repeated
+        let mut results = results;
+        for rows in results.iter_mut() {
+            if !rows.is_empty() && rng.chance(1, 4) {
+                let at = rng.below(rows.len());
+                let mut twin = rows[at].clone();
+                let flipped = if rng.chance(1, 2) { real_spec(0.0) } else { real_spec(-0.0) };
+                let other = if flipped == real_spec(0.0) { real_spec(-0.0) } else { real_spec(0.0) };
+                let ci = rng.below(twin.len());
+                rows[at][ci] = flipped; twin[ci] = other;
+                rows.insert(at + 1, twin);
+            }
+        }
         json!({"kind": "print", "format": format, "single": rng.chance(1, 2), "columns": columns, "results": results})
     }
 
